@@ -249,11 +249,31 @@ func checkC07(c *Ctx, r *Result, tier string) {
 			r.Undecide("R07b: path exploration of %s exceeded its state bound", key)
 			continue
 		}
-		// helpers whose results are passed through carry the same obligation
-		for _, h := range passThrough {
+		// helpers whose results are passed through carry the same obligation (transitively)
+		doneH := map[*ssa.Function]bool{fn: true}
+		var checkH func(h *ssa.Function, d int)
+		checkH = func(h *ssa.Function, d int) {
+			if doneH[h] || d > 4 {
+				return
+			}
+			doneH[h] = true
 			hk := c.FuncKey(h)
 			ho := mkOracle()
+			ho.CorrelateErr = o.CorrelateErr
+			var next []*ssa.Function
 			ho.AtReturn = func(st *PState, ret *ssa.Return) {
+				if len(ret.Results) == 2 {
+					e0, ok0 := st.canon(ret.Results[0]).(*ssa.Extract)
+					e1, ok1 := st.canon(ret.Results[1]).(*ssa.Extract)
+					if ok0 && ok1 && e0.Tuple == e1.Tuple && e0.Index == 0 && e1.Index == 1 {
+						if call, isCall := e0.Tuple.(*ssa.Call); isCall {
+							if h2 := call.Call.StaticCallee(); h2 != nil && c.modFuncSet[h2] && c.PkgOf(h2) == "parser" && returnsNodeErr(h2.Signature, node) {
+								next = append(next, h2)
+								return
+							}
+						}
+					}
+				}
 				for _, errNil := range []bool{true, false} {
 					s2 := st.clone()
 					if !s2.refineCond(mkIsNil(ret.Results[1]), errNil, ho) {
@@ -278,6 +298,12 @@ func checkC07(c *Ctx, r *Result, tier string) {
 			if !ExplorePaths(h, ho) {
 				r.Undecide("R07b: path exploration of %s exceeded its state bound", hk)
 			}
+			for _, h2 := range next {
+				checkH(h2, d+1)
+			}
+		}
+		for _, h := range passThrough {
+			checkH(h, 0)
 		}
 		if len(bad) == 0 {
 			r.Instance("R07b", key, c.Pos(fn.Pos()), "ok", "at every return exactly one of (tree, error) is non-nil", true)
